@@ -81,6 +81,9 @@ type Scenario struct {
 	HasCallback  bool   `json:"has_callback,omitempty"` // notify-linger: the client registered a push callback
 	LingerMs     int    `json:"linger_ms,omitempty"`    // notify-linger: the server closes the old connection this long after the notification
 	ExtraPush    bool   `json:"extra_push,omitempty"`   // notify-linger: an ordinary push precedes the notification
+	OneWays      int    `json:"one_ways,omitempty"`     // notify-linger: one-way calls (never answered) before the first notification
+	Restarts     int    `json:"restarts,omitempty"`     // notify-linger: graceful restarts in a row (0 = 1)
+	GapMs        int    `json:"gap_ms,omitempty"`       // notify-linger: the next notification this long after the previous one
 }
 
 type callResult struct {
@@ -1068,6 +1071,16 @@ func genScenarios(o *common.Opts, rng *rand.Rand) []Scenario {
 					PreCalls: 1 + rng.Intn(3), DelayMs: 50 + rng.Intn(151), LingerMs: 500 + rng.Intn(501)})
 			}
 		}
+		// successive graceful restarts, one-way requests in flight on the old client (its GraceClose
+		// keeps the handler of the first notification busy): every notification must switch the client
+		for _, cb := range []bool{false, true} {
+			scs = append(scs, Scenario{Kind: "notify-linger", CloseHow: "notify-linger", HasCallback: cb, OneWays: 2 + rng.Intn(3), Restarts: 2,
+				GapMs: []int{100, 400, 900, 2000}[rng.Intn(4)] + rng.Intn(100), PreCalls: 1 + rng.Intn(2), DelayMs: 50 + rng.Intn(151), LingerMs: 500 + rng.Intn(501)})
+		}
+		scs = append(scs, Scenario{Kind: "notify-linger", CloseHow: "notify-linger", HasCallback: rng.Intn(2) == 0, ExtraPush: true, OneWays: 2 + rng.Intn(2), Restarts: 3,
+			GapMs: 100 + rng.Intn(700), PreCalls: 1, DelayMs: 50 + rng.Intn(101), LingerMs: 500 + rng.Intn(301)})
+		scs = append(scs, Scenario{Kind: "notify-linger", CloseHow: "notify-linger", Restarts: 2, GapMs: 100 + rng.Intn(1900),
+			PreCalls: 1 + rng.Intn(2), DelayMs: 50 + rng.Intn(151), LingerMs: 500 + rng.Intn(501)})
 	}
 	for i := range scs {
 		scs[i].Seed = o.Seed
@@ -1253,6 +1266,12 @@ func main() {
 		}
 		if no.sc.ExtraPush {
 			class += ":extra-push"
+		}
+		if no.sc.Restarts > 1 {
+			class += fmt.Sprintf(":restarts=%d", no.sc.Restarts)
+		}
+		if no.sc.OneWays > 0 {
+			class += ":one-ways"
 		}
 		if len(fs) > 0 {
 			class += ":violating"
